@@ -128,6 +128,11 @@ def run_C02(ctx, rep):
     lib_rules.check_L31(ctx, rep)
     lib_rules.check_L13(ctx, rep)
     lib_rules.check_L8(ctx, rep)        # "never panic for every thread count": the shard amount is admissible under every pool size
+    # the parallel index types obey the same merge / combined-view obligations as the serial ones (what a parallel rule reads after a
+    # merge is what the serial rule reads)
+    lib_rules.check_L4(ctx, rep)
+    lib_rules.check_L6(ctx, rep)
+    lib_rules.check_L7(ctx, rep)
     gen_driver.run_gen(ctx, rep, ['G1G3', 'G2G7', 'G5', 'G6', 'G10', 'G12', 'G14', 'G15'], only_par=True, floors={'G1': 100, 'G6': 15, 'G10': 15, 'G4': 4, 'G14': 100, 'G15': 15})
     gen_driver.run_ser_par_twins(ctx, rep)
 
@@ -149,6 +154,9 @@ def run_C03(ctx, rep):
     # value-keyed indices count as well
     gen_driver.run_gen(ctx, rep, ['G3r'], only_tags=['lat_top'])
     lattice_rules.check_L10(ctx, rep)
+    # the lattice index types keep every row of a key through the delta -> total merge (a rule of a later iteration / stratum that
+    # probes the lattice by part of its key reads the total)
+    lib_rules.check_L4(ctx, rep)
     # "exactly one row for each key" also for rows the caller wrote into the field with equal keys
     gen_driver.run_gen(ctx, rep, ['G17'], floors={'G17': 30})
     _g17_verdict(rep)
@@ -228,6 +236,9 @@ def run_C06(ctx, rep):
     gen_driver.run_tv(ctx, rep, floors={'R3': 80})
     gen_driver.run_gen(ctx, rep, ['G12', 'G3r', 'G8'], floors={'G12': 40, 'G3r': 100, 'G13': 30, 'G16': 2})
     lib_rules.check_L13(ctx, rep)
+    # what an index holds after a merge does not depend on which side was larger / on the order in which the rules filled it
+    lib_rules.check_L4(ctx, rep)
+    lib_rules.check_L7(ctx, rep)
 
 
 PROPS = {
